@@ -213,6 +213,17 @@ func c13IntMap(s *obiseq.BioSequence, key string) map[string]int {
 		for k, x := range m {
 			out[k] = x
 		}
+	case map[string]interface{}: // a map read from a JSON title line and left as it was
+		for k, x := range m {
+			switch n := x.(type) {
+			case int:
+				out[k] = n
+			case float64:
+				out[k] = int(n)
+			default:
+				out[k+"?"+fmt.Sprint(x)] = -1
+			}
+		}
 	default:
 		out["?"+fmt.Sprint(v)] = -1
 	}
@@ -1225,9 +1236,10 @@ func TestVerifC13(t *testing.T) {
 	}
 
 	// ---- sampled, supplementary part 2: native multi-worker runs on the small sets. Never counted as exhaustive; it has its
-	// own time limit (15 s quick, 120 s thorough, never beyond 85% of the deadline) and stops silently ----
+	// own time limit (8 s quick, 120 s thorough, never beyond 85% of the deadline) and stops silently; the command-level
+	// part (TestVerifC13CLI) adds sampled runs of the real binary with 1..4 CPUs on thousands of data sets ----
 	phaseB := time.Now()
-	limitB := 15 * time.Second
+	limitB := 8 * time.Second
 	if thorough {
 		limitB = 120 * time.Second
 	}
